@@ -73,3 +73,36 @@ Example C34_nonvacuous_uuid :
   uuid_int (uuid_from_us 1700000000123456 1 2) = 6327270116954717217681649028212719617 /\ decode_us (uuid_from_us 1700000000123456 1 2) = 1700000000123456
   /\ cass_le (uuid_from_us 5 0 0) (uuid_from_us 5 255 0) = false.
 Proof. repeat split. Qed.
+
+(* ------------------------------------------------------------------ tie (T) for uuid_from_time: the integer tail of
+   cassandra.util.uuid_from_time REGENERATED from the working tree (Gen/UtilTimeGen.v), followed by the hand model of
+   CPython's uuid.UUID(fields=..., version=1) (Model/UuidFields.v), yields exactly the 128-bit integer of the model used
+   by C34_uuid_time / C34_uuid_bounds; statements proved in Proofs/C34_bridge.v. *)
+Require Verif.Gen.UtilTimeGen Verif.Model.UuidFields Verif.Proofs.UtilTime_proofs Verif.Proofs.C34_bridge.
+
+Theorem C34_source_uuid_is_model : forall us node clock, uuid_accepts node clock = true ->
+  exists f, UtilTimeGen.uuid_from_time_tail node clock (us * 10 + OFFSET) = Ok (f, 1) /\
+            UuidFields.py_uuid_int f 1 = Some (uuid_int (uuid_from_us us node clock)).
+Proof. exact C34_bridge.source_uuid_is_model. Qed.
+Print Assumptions C34_source_uuid_is_model.
+
+Theorem C34_source_uuid_rejects : forall us node clock, uuid_accepts node clock = false ->
+  match UtilTimeGen.uuid_from_time_tail node clock (us * 10 + OFFSET) with
+  | Ok (f, v) => UuidFields.py_uuid_int f v = None
+  | Raise => True
+  | Fuel => False
+  end.
+Proof. exact C34_bridge.source_uuid_rejects. Qed.
+Print Assumptions C34_source_uuid_rejects.
+
+(* what the source's Time(int) accepts: exactly [0, DAY) (the full statement; it was refuted before the repair) *)
+Theorem C34_source_time_accepts : forall t old,
+  (exists nt, UtilTimeGen.time_from_timestamp t old = Ok (tt, nt)) <-> 0 <= t < 86400000000000.
+Proof. exact UtilTime_proofs.time_accepts_full. Qed.
+Print Assumptions C34_source_time_accepts.
+
+Theorem C34_source_time_fields : forall nt,
+  UtilTimeGen.time_hour nt * 3600000000000 + UtilTimeGen.time_minute nt * 60000000000 +
+  UtilTimeGen.time_second nt * 1000000000 + UtilTimeGen.time_nanosecond nt = nt.
+Proof. exact UtilTime_proofs.time_fields_recompose. Qed.
+Print Assumptions C34_source_time_fields.
